@@ -3,6 +3,8 @@
 HOOK_COMMITS = ["1ba4448"]
 
 ENGINES = [
+    {"name": "m_gram", "path": "harness/vh/src/bin/m_gram.rs", "serves_properties": ["C03", "C04"],
+     "kind_free_text": "runtime monitor: grammar-generated programs (vh::gen, vh::prog printer with sidecar) are parsed by the real parser; C04 reads the CST back through the public typed accessors (vh::cstread) and compares with the intended structure; C03 damages one body and compares glas's own item list before/after"},
     {"name": "m_syntax", "path": "harness/vh/src/bin/m_syntax.rs", "serves_properties": ["C01", "C02"],
      "kind_free_text": "runtime monitor: executes syntax::parse_module on enumerated/generated/mutated texts under a panic hook, a 2 MiB stack and child processes; oracles over the returned tree"},
 ]
@@ -29,5 +31,20 @@ META = {
                        "the monitor observes returned / panicked (with first in-repo frame) / killed-by-signal / exceeded bound. Found and repaired: 'parser is stuck' panic and stack overflow on deep nesting."),
         "design_ref": "DESIGN.md §5 C02",
         "level_note": "Inputs up to ~1 MiB; 'never loops' restated as bounded progress (20 s per parse, 120 s per child => inconclusive, never a violation by time alone).",
+    },
+    "C03": {
+        "technique": "untouched-items oracle under brace-balanced token damage (k=1 exhaustive over a base pool, k>1 sampled)",
+        "level_text": ("Exploration: ~4x10^6 damaged files per quick run; for each, the real parser's item list and error ranges are compared with those of the undamaged file. "
+                       "All single-token damages over the base pool are enumerated. Found and repaired: recovery loops that swallowed the closing brace / following definitions."),
+        "design_ref": "DESIGN.md §5 C03",
+        "level_note": "Victims are braced bodies of functions and custom types; base files come from the generator (cross-checked by C04); multi-edit damage is sampled.",
+    },
+    "C04": {
+        "technique": "print -> parse -> read-back equality against a reference grammar; exhaustive operator pairs/triples; typed-accessor slot checks",
+        "level_text": ("Exploration: all 23^2 and 23^3 infix operator combinations in every association shape plus ~10^5 random programs with wild trivia per quick run are parsed; "
+                       "zero errors and S-expression equality between the generator's intended tree and the CST read through syntax::ast accessors are required. "
+                       "Found and repaired: `<=.` operator kind, slot-confusing accessors (Param::ty, StmtLet::body), string-prefix pattern tree."),
+        "design_ref": "DESIGN.md §5 C04",
+        "level_note": "Supported surface = the generator's grammar (listed in evidence.assumptions); the reference precedence table is Gleam's, transcribed by hand.",
     },
 }
